@@ -12,16 +12,18 @@
 _UUID_CHAR = "[0-9a-fA-F-]"
 # TODO(efried): Use this stricter pattern, and replace string/uuid with it:
 # UUID_PATTERN = "^%s{8}-%s{4}-%s{4}-%s{4}-%s{12}$" % ((_UUID_CHAR,) * 5)
-UUID_PATTERN = "^%s{36}$" % _UUID_CHAR
+UUID_PATTERN = r"^%s{36}\Z" % _UUID_CHAR
 
+# NOTE: the patterns end in \\Z, not $: in Python's re "$" also matches before a
+# trailing newline, which let names such as "CUSTOM_A\\n" through.
 _RC_TRAIT_CHAR = "[A-Z0-9_]"
-_RC_TRAIT_PATTERN = "^%s+$" % _RC_TRAIT_CHAR
+_RC_TRAIT_PATTERN = r"^%s+\Z" % _RC_TRAIT_CHAR
 RC_PATTERN = _RC_TRAIT_PATTERN
-_CUSTOM_RC_TRAIT_PATTERN = "^CUSTOM_%s+$" % _RC_TRAIT_CHAR
+_CUSTOM_RC_TRAIT_PATTERN = r"^CUSTOM_%s+\Z" % _RC_TRAIT_CHAR
 CUSTOM_RC_PATTERN = _CUSTOM_RC_TRAIT_PATTERN
 CUSTOM_TRAIT_PATTERN = _CUSTOM_RC_TRAIT_PATTERN
 CONSUMER_TYPE_PATTERN = _RC_TRAIT_PATTERN
-CONSUMER_TYPE_GET_PATTERN = "%s|^all|^unknown$" % CONSUMER_TYPE_PATTERN
+CONSUMER_TYPE_GET_PATTERN = r"%s|^all|^unknown\Z" % CONSUMER_TYPE_PATTERN
 
 # The suffix used with request groups. Prior to 1.33, the group were numbered.
 # With 1.33 they become alphanumeric, '_', and '-' with a length limit of 64.
